@@ -240,11 +240,7 @@ type item struct {
 	goKey string
 	hash  string
 	explicit bool
-<<<<<<< HEAD
-	extern string // Coq module that supplies this item (cfg directive `extern pkg.Var Module`); no text is emitted
-=======
-	extern string // Coq module (under Geo.) holding a hand-written definition of this name
->>>>>>> c12
+	extern string // Coq module (under Geo.) holding a hand-written definition of this item (cfg directive `extern <pkg.Var|pkg.Func|pkg.Type.Method> <Module>`); no text is emitted
 }
 
 type gen struct {
@@ -1844,19 +1840,13 @@ func readCfg(path string) (units []string, entries []cfgEntry) {
 			continue
 		}
 		if strings.HasPrefix(ln, "extern ") {
-<<<<<<< HEAD
-			// extern pkg.Var Coq.Module : package-level variable supplied by a hand-written module
-			if f := strings.Fields(ln); len(f) == 3 {
-				externs[f[1]] = f[2]
-			}
-=======
-			// extern <pkg.Func | pkg.Type.Method> <Coq module>: the function is hand-modelled there under its usual Coq name
+			// extern <pkg.Var | pkg.Func | pkg.Type.Method> <Coq module>: the item is hand-modelled there under its usual Coq name
 			f := strings.Fields(ln)
 			if len(f) != 3 {
 				fatal("bad extern line: " + ln)
 			}
+			externs[f[1]] = f[2]
 			cfgExterns[f[1]] = f[2]
->>>>>>> c12
 			continue
 		}
 		entries = append(entries, cfgEntry{cur, ln})
